@@ -3,7 +3,7 @@
    proofs: Base/PolyCtorProofs.v, Base/PolySimplex.v, Base/LinDep.v; certified set comparison used by the tie: Cert/PolyInc.v.
    All statements hold for every dimension (0 included unless stated), every polytope / argument and every
    point x : list Qc of the ambient length.  in_poly P x  :=  A x <= b row by row. *)
-From AT Require Import Num Vec Aff Poly AffOps Farkas FM PolyCtor PolyCtorProofs PolySimplex LinDep PolyInc.
+From AT Require Import Num Vec Aff Poly AffOps Farkas FM PolyCtor PolyCtorProofs PolySimplex LinDep PolyInc AffOps2.
 
 (* ---- intersection, intersection_n ---- *)
 Theorem C14_intersection : forall P Q x, wf_aff P -> wf_aff Q -> a_in P = a_in Q ->
@@ -252,3 +252,16 @@ Print Assumptions C14_distance_as_found_refuted.
 Print Assumptions C14_distance_dim0_as_found_refuted.
 Print Assumptions C14_axis_bounds_as_found_refuted.
 Print Assumptions C14_nonvacuous.
+
+(* ---- distances_raw: several points at once (the columns of the argument), Base/AffOps2.v ---- *)
+Theorem C14_distances_raw : forall P pts, length (a_mat P) = length (a_bias P) ->
+  Forall (fun x => length x = a_in P) pts ->
+  exists D, p_distances_raw P pts = Some D /\ (length D = length pts)%nat /\
+            forall j, (j < length pts)%nat ->
+                      p_distance_raw P (nth j pts []) = Some (nth j D []) /\
+                      (in_poly P (nth j pts []) <-> Forall (fun d => 0 <= d) (nth j D [])).
+Proof. exact distances_raw_columns. Qed.
+Theorem C14_distances_raw_guard : forall P pts, Exists (fun x => length x <> a_in P) pts -> p_distances_raw P pts = None.
+Proof. exact distances_raw_panics. Qed.
+Print Assumptions C14_distances_raw.
+Print Assumptions C14_distances_raw_guard.
